@@ -303,6 +303,22 @@ class TermBuilder:
         inl = self.inline_call(c, depth)
         if inl is not None:
             return inl
+        if d in ("std::ops::Fn::call", "std::ops::FnMut::call_mut", "std::ops::FnOnce::call_once") and len(c.args) == 2 and depth <= 6:
+            # a local closure called directly (`let get = |tag| hdr.get(tag); get(A)`): its return term with the arguments
+            # and the captured values substituted
+            facts = getattr(b, "facts", None)
+            cls = [lf["stmt"]["rv"]["closure"] for lf in b.origins(c.args[0], passthrough={}) if lf["kind"] == "agg" and lf["stmt"]["rv"].get("ak") == "closure"]
+            at = self.term(c.args[1], depth + 1)
+            if facts is not None and len(cls) == 1 and cls[0] in facts.bodies and at[0] == "agg" and at[1] == "tuple":
+                cb = facts.bodies[cls[0]]
+                if len(cb.blocks) <= 60 and cb is not b:
+                    sub = TermBuilder(cb, None, closure_env=True)
+                    sub.pt = self.pt
+                    ret = sub.term({"l": 0, "p": []}, depth + 1)
+                    mapping = {}
+                    for i, a in enumerate(at[2]):
+                        mapping[cb.local_name(i + 2) or "_%d" % (i + 2)] = a
+                    return subst_args(ret, mapping)
         return ("call", d, [self.term(a, depth + 1) for a in c.args])
 
     def inline_call(self, c, depth):
@@ -317,6 +333,8 @@ class TermBuilder:
         callee = facts.bodies[path]
         if len(callee.blocks) > 120 or callee is self.body:
             return None
+        if getattr(callee, "kind", None) == "closure":
+            return None       # a closure called directly: call_term spreads the argument tuple over its parameters
         sub = TermBuilder(callee, None)
         sub.pt = self.pt
         ret = sub.term({"l": 0, "p": []}, depth + 1)
